@@ -1852,8 +1852,10 @@ def same_function(fa, fb):
 def _seg_function(stmts, live_out):
     body = [ast.parse(ast.unparse(st)).body[0] for st in stmts]
     if live_out:
-        body.append(ast.Expr(value=ast.Call(func=ast.Name(id="__liveout__", ctx=ast.Load()),
-                                            args=[ast.Name(id=n, ctx=ast.Load()) for n in sorted(live_out)], keywords=[])))
+        # the names under which values leave the segment are part of its meaning: kept as keywords
+        body.append(ast.Expr(value=ast.Call(func=ast.Name(id="__liveout__", ctx=ast.Load()), args=[],
+                                            keywords=[ast.keyword(arg=n, value=ast.Name(id=n, ctx=ast.Load()))
+                                                      for n in sorted(live_out)])))
     fn = ast.FunctionDef(name="_seg", args=ast.arguments(posonlyargs=[], args=[], vararg=None, kwonlyargs=[], kw_defaults=[],
                                                          kwarg=None, defaults=[]), body=body or [ast.Pass()],
                          decorator_list=[], returns=None, type_comment=None, lineno=1, col_offset=0)
